@@ -1,6 +1,7 @@
 package h
 
 import (
+	"io"
 	"context"
 	"errors"
 	"fmt"
@@ -26,6 +27,7 @@ type EngineCfg struct {
 	LookbackMs      int64  `json:"lookback_ms,omitempty"`       // 0 = default 5m
 	QueryLookbackMs int64  `json:"query_lookback_ms,omitempty"` // per-query QueryOpts.LookbackDelta
 	EmptyQueryOpts  bool   `json:"empty_query_opts,omitempty"`  // pass non-nil QueryOpts that set nothing
+	Debug           bool   `json:"debug,omitempty"`             // engine created with a DebugWriter (plans are explained at creation)
 	Opt             string `json:"opt,omitempty"`               // none|sort|merge|prop|default|all|sort+prop|merge+prop|...
 	Fallback        bool   `json:"fallback,omitempty"`
 	Procs           int    `json:"procs,omitempty"` // GOMAXPROCS during plan creation+execution; 0 = leave
@@ -183,6 +185,9 @@ func refOpts(cfg EngineCfg) promql.EngineOpts {
 func engOpts(cfg EngineCfg, reg prometheus.Registerer) engine.Opts {
 	o := engine.Opts{EngineOpts: refOpts(cfg), DisableFallback: !cfg.Fallback, LogicalOptimizers: Optimizers(cfg.Opt)}
 	o.EngineOpts.Reg = reg
+	if cfg.Debug {
+		o.DebugWriter = io.Discard
+	}
 	return o
 }
 
